@@ -58,8 +58,8 @@ loop:
 			}
 			continue
 
-		// subcommand
-		case subcommand(cmd, arg) != nil:
+		// subcommand (only the first positional word can name one, see cobra's Command.Find)
+		case len(inPositionals) == 0 && subcommand(cmd, arg) != nil:
 			LOG.Printf("arg %#v is a subcommand\n", arg)
 
 			switch {
